@@ -1,6 +1,6 @@
 //go:build verif
 
-package tkn20
+package tkn20_test
 
 // C20, reuse histories: the property quantifies over attribute SETS, policies and keys, not over how the Go object
 // that holds them was used before. One object of each kind is therefore driven through every short history of
@@ -12,6 +12,8 @@ package tkn20
 import (
 	"bytes"
 	"fmt"
+	"github.com/cloudflare/circl/abe/cpabe/tkn20"
+	"github.com/cloudflare/circl/internal/verifref/c20hooks"
 	"reflect"
 	"testing"
 
@@ -55,8 +57,8 @@ func c20ReuseFormulas(asgs []c20Asg, lists ...[]*abe.Node) *c20ReuseForms {
 }
 
 // parse returns private Policy objects (Satisfaction may write to a policy on some trees).
-func (rf *c20ReuseForms) parse() []*Policy {
-	out := make([]*Policy, len(rf.strs))
+func (rf *c20ReuseForms) parse() []*tkn20.Policy {
+	out := make([]*tkn20.Policy, len(rf.strs))
 	for i, s := range rf.strs {
 		p, err, pn := c20Parse(s)
 		if err == nil && pn == "" {
@@ -67,7 +69,7 @@ func (rf *c20ReuseForms) parse() []*Policy {
 }
 
 // c20CheckAttrs: a (obtained by the history `hist`) must behave like the fresh object of assignment j.
-func c20CheckAttrs(r *verifmc.Run, a *Attributes, asgs []c20Asg, j int, rf *c20ReuseForms, pols []*Policy, entry, hist, class string) {
+func c20CheckAttrs(r *verifmc.Run, a *tkn20.Attributes, asgs []c20Asg, j int, rf *c20ReuseForms, pols []*tkn20.Policy, entry, hist, class string) {
 	caseID := "reuse|" + entry + "|" + hist
 	if r.Replaying() && caseID != r.ReplayCase() {
 		return
@@ -124,7 +126,7 @@ func TestVerifC20_reuse(t *testing.T) {
 		for j := range asgs {
 			hist := "FromMap{" + asgs[i].name + "};FromMap{" + asgs[j].name + "}"
 			class := c20HistClass([]map[string]string{asgs[i].m}, asgs[j].m)
-			var a Attributes
+			var a tkn20.Attributes
 			a.FromMap(asgs[i].m)
 			a.FromMap(asgs[j].m)
 			r.Distinct("attrs2", i, j)
@@ -134,7 +136,7 @@ func TestVerifC20_reuse(t *testing.T) {
 			}
 			c20CheckAttrs(r, &a, asgs, j, rf, pols, "Attributes.FromMap", hist, class)
 			// a struct copy refilled: the copy is the last assignment, the original is untouched
-			var o Attributes
+			var o tkn20.Attributes
 			o.FromMap(asgs[i].m)
 			cp := o
 			cp.FromMap(asgs[j].m)
@@ -166,7 +168,7 @@ func TestVerifC20_reuse(t *testing.T) {
 		pols := rf.parse()
 		i, j := ij/n, ij%n
 		for k := 0; k < n; k++ {
-			var a Attributes
+			var a tkn20.Attributes
 			a.FromMap(small[i].m)
 			a.FromMap(small[j].m)
 			a.FromMap(small[k].m)
@@ -183,7 +185,7 @@ func TestVerifC20_reuse(t *testing.T) {
 	asg9 := c20Assignments(ab, []string{"1", "2"})
 	type ctx struct {
 		pol  string
-		p    *Policy
+		p    *tkn20.Policy
 		nn   *abe.Node
 		ct   []byte
 		msg  []byte
@@ -223,7 +225,7 @@ func TestVerifC20_reuse(t *testing.T) {
 		if r.Replaying() && caseID != r.ReplayCase() {
 			return
 		}
-		var a Attributes
+		var a tkn20.Attributes
 		a.FromMap(asg9[i].m)
 		a.FromMap(asg9[j].m)
 		for ci, c := range cts {
@@ -276,10 +278,10 @@ func TestVerifC20_reuse(t *testing.T) {
 		if r.Replaying() && caseID != r.ReplayCase() {
 			return
 		}
-		var a Attributes
+		var a tkn20.Attributes
 		a.FromMap(asg9[i].m)
 		a.FromMap(asg9[j].m)
-		var sk AttributeKey
+		var sk tkn20.AttributeKey
 		var err error
 		if pn, w := verifmc.Try(func() { sk, err = sys.msk.KeyGen(verifmc.NewDetReader("c20/reuse/key/"+hist), a) }); pn || err != nil {
 			c20Violation(r, "C20|SystemSecretKey.KeyGen|fails|"+class, caseID, fmt.Sprintf("KeyGen from the used object [%s]: %v %s", hist, err, w), nil)
@@ -306,13 +308,13 @@ func TestVerifC20_reuse(t *testing.T) {
 	r.Set("formulas_for_policy_histories", len(pf.forms))
 	bins := make([][]byte, len(pf.forms))
 	for i, p := range pf.parse() {
-		if p != nil {
-			bins[i], _ = p.policy.MarshalBinary()
+		if p != nil && c20hooks.PolicyMarshal != nil && c20hooks.PolicyUnmarshal != nil {
+			bins[i], _ = c20hooks.PolicyMarshal(p)
 		}
 	}
 	np := len(pf.forms)
 	// checkPol: used (after history hist) must be the policy of formula j
-	checkPol := func(used *Policy, j int, entry, hist string) {
+	checkPol := func(used *tkn20.Policy, j int, entry, hist string) {
 		caseID := "reuse|" + entry + "|" + hist
 		if r.Replaying() && caseID != r.ReplayCase() {
 			return
@@ -323,7 +325,7 @@ func TestVerifC20_reuse(t *testing.T) {
 		}
 		r.Eval(1)
 		class := c20Class(pf.forms[j])
-		if reflect.DeepEqual(used.policy, fresh.policy) {
+		if c20SameStructure(used, fresh) {
 			if !used.Equal(fresh) || !fresh.Equal(used) {
 				c20Violation(r, "C20|"+entry+"|used-object-not-Equal-to-fresh|"+class, caseID, fmt.Sprintf("Policy object after the history [%s] is not Equal to a fresh policy %q", hist, pf.strs[j]), map[string]interface{}{"history": hist})
 			}
@@ -352,7 +354,7 @@ func TestVerifC20_reuse(t *testing.T) {
 	}
 	verifmc.ParallelFor(np, func(i int) {
 		for j := 0; j < np; j++ {
-			var u Policy
+			var u tkn20.Policy
 			var e1, e2 error
 			if pn, w := verifmc.Try(func() { e1 = u.FromString(pf.strs[i]); e2 = u.FromString(pf.strs[j]) }); pn || e1 != nil || e2 != nil {
 				c20Violation(r, "C20|Policy.FromString|used-object/error|"+c20Class(pf.forms[j]), "reuse|Policy.FromString|"+pf.strs[i]+";"+pf.strs[j], fmt.Sprintf("FromString(%q) then FromString(%q) on one object: %v %v %s", pf.strs[i], pf.strs[j], e1, e2, w), nil)
@@ -364,10 +366,10 @@ func TestVerifC20_reuse(t *testing.T) {
 			if bins[i] == nil || bins[j] == nil {
 				continue
 			}
-			var m Policy
+			var m tkn20.Policy
 			if pn, w := verifmc.Try(func() {
-				e1 = m.policy.UnmarshalBinary(append([]byte{}, bins[i]...))
-				e2 = m.policy.UnmarshalBinary(append([]byte{}, bins[j]...))
+				e1 = c20hooks.PolicyUnmarshal(&m, append([]byte{}, bins[i]...))
+				e2 = c20hooks.PolicyUnmarshal(&m, append([]byte{}, bins[j]...))
 			}); pn || e1 != nil || e2 != nil {
 				c20Violation(r, "C20|Policy.UnmarshalBinary|used-object/error|"+c20Class(pf.forms[j]), "reuse|Policy.UnmarshalBinary|"+pf.strs[i]+";"+pf.strs[j], fmt.Sprintf("UnmarshalBinary(%q) then UnmarshalBinary(%q) on one object: %v %v %s", pf.strs[i], pf.strs[j], e1, e2, w), nil)
 				continue
@@ -389,7 +391,7 @@ func TestVerifC20_reuse(t *testing.T) {
 	for i := range cts {
 		for j := range cts {
 			for _, first := range []string{"FromString", "ExtractFromCiphertext"} {
-				var u Policy
+				var u tkn20.Policy
 				var e1, e2 error
 				if pn, w := verifmc.Try(func() {
 					if first == "FromString" {
@@ -431,7 +433,7 @@ func TestVerifC20_reuse(t *testing.T) {
 				return
 			}
 			class := c20HistClass([]map[string]string{asg9[i].m}, asg9[j].m)
-			var u AttributeKey
+			var u tkn20.AttributeKey
 			var e1, e2 error
 			if pn, w := verifmc.Try(func() {
 				e1 = u.UnmarshalBinary(append([]byte{}, kb[i]...))
@@ -455,17 +457,17 @@ func TestVerifC20_reuse(t *testing.T) {
 		})
 	}
 	// system keys: a second system, UnmarshalBinary(A);UnmarshalBinary(B) and B;A
-	pkB, mskB, err := Setup(verifmc.NewDetReader("c20/setup/B"))
+	pkB, mskB, err := tkn20.Setup(verifmc.NewDetReader("c20/setup/B"))
 	if err != nil {
 		t.Fatalf("Setup: %v", err)
 	}
 	type sysT struct {
 		name string
-		pk   *PublicKey
-		msk  *SystemSecretKey
+		pk   *tkn20.PublicKey
+		msk  *tkn20.SystemSecretKey
 	}
 	ss := []sysT{{"A", &sys.pk, &sys.msk}, {"B", &pkB, &mskB}}
-	var at Attributes
+	var at tkn20.Attributes
 	at.FromMap(map[string]string{"a": "1", "b": "2"})
 	for _, ord := range [][2]int{{0, 1}, {1, 0}, {0, 0}} {
 		x, y := ss[ord[0]], ss[ord[1]]
@@ -474,8 +476,8 @@ func TestVerifC20_reuse(t *testing.T) {
 		if r.Replaying() && caseID != r.ReplayCase() {
 			continue
 		}
-		var upk PublicKey
-		var umsk SystemSecretKey
+		var upk tkn20.PublicKey
+		var umsk tkn20.SystemSecretKey
 		var e error
 		var st int
 		var detail string
@@ -505,12 +507,12 @@ func TestVerifC20_reuse(t *testing.T) {
 		// used pk with fresh msk of y, and fresh pk of y with used msk
 		for _, comb := range []struct {
 			n   string
-			pk  *PublicKey
-			msk *SystemSecretKey
+			pk  *tkn20.PublicKey
+			msk *tkn20.SystemSecretKey
 		}{{"used pk + fresh msk", &upk, y.msk}, {"fresh pk + used msk", y.pk, &umsk}} {
 			if pn, w := verifmc.Try(func() {
 				var ct []byte
-				var sk AttributeKey
+				var sk tkn20.AttributeKey
 				if ct, e = comb.pk.Encrypt(verifmc.NewDetReader("c20/reuse/sys/enc"), *dec.p, dec.msg); e != nil {
 					return
 				}
@@ -533,7 +535,10 @@ func TestVerifC20_reuse(t *testing.T) {
 	r.RequireCounter("CouldDecrypt_on_used_attributes", 200)
 	r.RequireCounter("keys_generated_from_used_attributes", 6)
 	r.RequireCounter("policy_histories_FromString_x_FromString", 40000)
-	r.RequireCounter("policy_histories_Unmarshal_x_Unmarshal", 40000)
+	r.Set("in_package_readout_linked", c20hooks.Available())
+	if c20hooks.Available() {
+		r.RequireCounter("policy_histories_Unmarshal_x_Unmarshal", 40000)
+	}
 	r.RequireCounter("policy_histories_x_ExtractFromCiphertext", 72)
 	r.RequireCounter("key_histories_Unmarshal_x_Unmarshal", 81)
 	r.RequireCounter("system_key_histories", 3)
